@@ -1,0 +1,128 @@
+//go:build verif
+
+package file
+
+import (
+	"io"
+	"os"
+	"sync"
+
+	"github.com/ozontech/file.d/metric"
+	"github.com/ozontech/file.d/pipeline"
+	"github.com/ozontech/file.d/pipeline/metadata"
+	"github.com/prometheus/client_golang/prometheus"
+	"go.uber.org/atomic"
+	"go.uber.org/zap"
+)
+
+// Verification-only driver for property C06: runs the real worker.work on one real file, one job
+// pass ("round") per call, with a recording inputer. Add-only; not referenced by production code.
+
+type verifC06Inputer struct {
+	onIn    func(offset int64, data []byte)
+	readOps int
+	sizeExc int
+}
+
+func (i *verifC06Inputer) In(_ pipeline.SourceID, _ string, off pipeline.Offsets, data []byte, _ bool, _ metadata.MetaData) uint64 {
+	// data is handed over un-copied (it aliases the worker's buffers, as in production)
+	i.onIn(off.VerifCurrentC06(), data)
+	return 1
+}
+func (i *verifC06Inputer) IncReadOps()                       { i.readOps++ }
+func (i *verifC06Inputer) IncMaxEventSizeExceeded(...string) { i.sizeExc++ }
+
+// VerifC06 is one worker + one job on one open file.
+type VerifC06 struct {
+	w      *worker
+	jp     *jobProvider
+	job    *Job
+	ctl    *verifC06Inputer
+	logger *zap.SugaredLogger
+}
+
+var (
+	verifC06JP     *jobProvider
+	verifC06Logger *zap.SugaredLogger
+)
+
+// verifC06Provider: one job provider (metrics, channels) shared by all sequentially used drivers;
+// its job table and done-counter are reset for every new driver.
+func verifC06Provider() (*jobProvider, *zap.SugaredLogger) {
+	if verifC06JP == nil {
+		verifC06Logger = zap.NewNop().Sugar()
+		ctl := metric.NewCtl("verif_c06", prometheus.NewRegistry(), 0, 0)
+		metrics := newMetricCollection(
+			ctl.RegisterCounter("worker1", "verif"),
+			ctl.RegisterCounter("worker2", "verif"),
+			ctl.RegisterGauge("worker3", "verif"),
+			ctl.RegisterGauge("worker4", "verif"),
+		)
+		verifC06JP = NewJobProvider(&Config{}, metrics, verifC06Logger)
+		verifC06JP.jobsChan = make(chan *Job, 4)
+	}
+	return verifC06JP, verifC06Logger
+}
+
+// VerifNewC06 opens path and prepares a job on it.
+// tailMode=false: the job starts at byte offset `resume` (job.seek, as addJob/initJobOffset do for
+// a stored offset). tailMode=true: the real initJobOffset(offsetsOpTail) positions the job.
+func VerifNewC06(path string, maxEventSize int, cutOff bool, tailMode bool, resume int64,
+	onIn func(offset int64, data []byte)) (*VerifC06, error) {
+	f, err := os.Open(path)
+	if err != nil {
+		return nil, err
+	}
+	job := &Job{
+		file:       f,
+		filename:   path,
+		shouldSkip: *atomic.NewBool(false),
+		mu:         &sync.Mutex{},
+	}
+	jp, lg := verifC06Provider()
+	for len(jp.jobsChan) > 0 {
+		<-jp.jobsChan
+	}
+	jp.jobs = map[pipeline.SourceID]*Job{1: job}
+	jp.jobsDone.Store(0)
+	if tailMode {
+		jp.initJobOffset(offsetsOpTail, job)
+	} else {
+		job.seek(resume, io.SeekStart, "verif")
+	}
+	return &VerifC06{
+		w:      &worker{maxEventSize: maxEventSize, cutOffEventByLimit: cutOff},
+		jp:     jp,
+		job:    job,
+		ctl:    &verifC06Inputer{onIn: onIn},
+		logger: lg,
+	}, nil
+}
+
+// Round lets the real worker.work take the job once (it reads to EOF, calls In for every line it
+// decides to deliver, saves tail/curOffset and marks the job done), then stop on the nil job.
+func (v *VerifC06) Round(readBufferSize int) {
+	v.job.mu.Lock()
+	if v.job.isDone {
+		v.jp.tryResumeJobAndUnlock(v.job, v.job.filename) // what the watcher's notify does on a write
+	} else {
+		v.job.mu.Unlock()
+		v.jp.jobsChan <- v.job
+	}
+	v.jp.jobsChan <- nil
+	v.w.work(v.ctl, v.jp, readBufferSize, v.logger)
+}
+
+// State returns job.curOffset, a copy of job.tail, job.shouldSkip and the file's real position.
+func (v *VerifC06) State() (curOffset int64, tail []byte, shouldSkip bool, filePos int64) {
+	pos, err := v.job.file.Seek(0, io.SeekCurrent)
+	if err != nil {
+		pos = -1
+	}
+	return v.job.curOffset, append([]byte(nil), v.job.tail...), v.job.shouldSkip.Load(), pos
+}
+
+// Counters returns the number of IncReadOps / IncMaxEventSizeExceeded calls so far.
+func (v *VerifC06) Counters() (readOps, sizeExceeded int) { return v.ctl.readOps, v.ctl.sizeExc }
+
+func (v *VerifC06) Close() { _ = v.job.file.Close() }
